@@ -394,6 +394,48 @@ func (e *Engine) lemmaObligations() {
 
 // callersObligations: syntactic call-graph obligations ("only F may call G") over all non-test repo functions.
 func (e *Engine) callersObligations() {
+	// static callers of every function (to accept private helpers that are only reachable from an allowed function)
+	callers := map[string]map[string]bool{}
+	referenced := map[string]bool{} // functions used as values (could be called from anywhere)
+	for fn := range ssautil.AllFunctions(e.prog) {
+		for _, b := range fn.Blocks {
+			for _, in := range b.Instrs {
+				if ci, ok := in.(ssa.CallInstruction); ok {
+					if sc := ci.Common().StaticCallee(); sc != nil {
+						if callers[sc.String()] == nil {
+							callers[sc.String()] = map[string]bool{}
+						}
+						callers[sc.String()][fn.String()] = true
+					}
+				}
+				for _, op := range in.Operands(nil) {
+					if f, ok := (*op).(*ssa.Function); ok {
+						if ci, isCall := in.(ssa.CallInstruction); !isCall || ci.Common().Value != *op {
+							referenced[f.String()] = true
+						}
+					}
+				}
+			}
+		}
+	}
+	var allowedFn func(name string, allowed []string, seen map[string]bool) bool
+	allowedFn = func(name string, allowed []string, seen map[string]bool) bool {
+		for _, a := range allowed {
+			if name == a {
+				return true
+			}
+		}
+		if seen[name] || referenced[name] || len(callers[name]) == 0 {
+			return false
+		}
+		seen[name] = true
+		for c := range callers[name] {
+			if !allowedFn(c, allowed, seen) {
+				return false
+			}
+		}
+		return true
+	}
 	for _, r := range e.specs.Callers {
 		var sites []string
 		nsites := 0
@@ -432,13 +474,7 @@ func (e *Engine) callersObligations() {
 						continue
 					}
 					nsites++
-					allowed := false
-					for _, a := range r.Allowed {
-						if fn.String() == a {
-							allowed = true
-						}
-					}
-					if !allowed {
+					if !allowedFn(fn.String(), r.Allowed, map[string]bool{}) {
 						sites = append(sites, fn.String()+" at "+e.posStr(in.Pos()))
 					}
 				}
